@@ -64,8 +64,9 @@ static void make_source(char *out, const char *text)
 // instruction is what follows the separator
 static void strip_alias(char *t)
 {
-  for (int i = 0; t[i] != 0; i++)
-    if (t[i] == ' ' && t[i + 1] == ' ' && t[i + 2] == '-' && t[i + 3] == '-' && t[i + 4] == ' ' && t[i + 5] == ' ')
+  for (int i = 0; symx_is_symbolic((uint8_t)t[i]) || t[i] != 0; i++)
+    if (!symx_is_symbolic((uint8_t)t[i]) && t[i] == ' ' && !symx_is_symbolic((uint8_t)t[i + 1]) && t[i + 1] == ' ' && !symx_is_symbolic((uint8_t)t[i + 2]) && t[i + 2] == '-' &&
+        !symx_is_symbolic((uint8_t)t[i + 3]) && t[i + 3] == '-' && t[i + 4] == ' ' && t[i + 5] == ' ')
     {
       int k = i + 6; int j = 0;
       while (t[k] != 0) t[j++] = t[k++];
@@ -80,6 +81,15 @@ extern "C" void harness_main()
   for (int i = 0; i < NBYTES; i++) b[i] = symx_u8("b");
 #ifdef PART_MASK
   symx_assume((b[PART_BYTE] & PART_MASK) == PART_VAL);   // partition of the opcode space handled by this job
+#ifdef PART2_MASK
+  symx_assume((b[PART2_BYTE] & PART2_MASK) == PART2_VAL);
+#endif
+#ifdef NARROW_EXT
+  // breadth jobs: the bytes after the first unit are symbolic in 0..NARROW_EXT (low byte of each unit) / 0 (other
+  // bytes), so that every printed number has decimal-looking digits only and the tokenizer does not fork on digit
+  // classes: one path per instruction form, the solver still decides all values of the narrow range
+  for (int i = NARROW_FROM; i < NBYTES; i++) symx_assume(((i - NARROW_FROM) % NARROW_UNIT) == NARROW_LOW ? b[i] <= NARROW_EXT : b[i] == 0);
+#endif
 #elif defined(PART_BYTE)
   symx_assume((b[PART_BYTE] >> 4) == PART);      // partition of the opcode space handled by this job
 #endif
